@@ -44,7 +44,17 @@ pub fn history(l: &mut Local, im: DecoderImplementation, m: &Mat, rng: &mut Rng,
             (_, 2) if step % 3 == 1 => 10,                   // huge-then-tiny
             _ => rng.below(genm::LLR_CLASSES.len()),
         };
-        let llrs = genm::llr_vector(rng, m.cols, class, Some(&cw));
+        let mut llrs = genm::llr_vector(rng, m.cols, class, Some(&cw));
+        // hard-decision style frames (one magnitude, signs of a codeword with one or two flips): exact ties of message
+        // magnitudes at every check, which is where an order-dependent rule (A-Min*) shows any state it keeps
+        if rng.chance(if name.contains("Aminstarf") { 0.5 } else { 0.08 }) {
+            let mag = *rng.pick(&[1.3863, 2.0, 0.5, 4.0]);
+            llrs = cw.iter().map(|&b| if b == 1 { -mag } else { mag }).collect();
+            for _ in 0..rng.range(1, 2) {
+                let i = rng.below(llrs.len());
+                llrs[i] = -llrs[i];
+            }
+        }
         let limit = match (prev_kind, rng.below(5)) {
             ("fail", 0) | ("ok", 0) => 0,
             _ => *rng.pick(&[0usize, 1, 1, 2, 2, 5, 30]),
@@ -105,7 +115,7 @@ pub fn history(l: &mut Local, im: DecoderImplementation, m: &Mat, rng: &mut Rng,
 }
 
 pub fn run(run: &mut Run) {
-    run.rule = "all 36 names x call histories of length 2..20 on one long-lived decoder built by build_decoder; every call is repeated on a decoder freshly built on the same H and the two results must be equal; arguments are steered by the previous outcome (failure -> tiny / limit 0, huge -> tiny magnitudes), limits from {0,1,2,5,30}, matrices include very unequal row weights (scratch vectors) and shuffled insertion order; non-trivial = history with a failure followed by a non-shortcut call, or a limit-0 call on a non-codeword after >= 1 executed iteration; distinct by history digest".into();
+    run.rule = "all 36 names x call histories of length 2..20 on one long-lived decoder built by build_decoder; every call is repeated on a decoder freshly built on the same H and the two results must be equal; arguments are steered by the previous outcome (failure -> tiny / limit 0, huge -> tiny magnitudes), hard-decision style frames with exact magnitude ties (half of the frames for the float A-Min* names), one matrix in eight with zero-weight columns, limits from {0,1,2,5,30}, matrices include very unequal row weights (scratch vectors) and shuffled insertion order; non-trivial = history with a failure followed by a non-shortcut call, or a limit-0 call on a non-codeword after >= 1 executed iteration; distinct by history digest".into();
     let impls = crate::props::c01::all_impls();
     let ni = impls.len() as u64;
     let per = if cfg!(miri) { 1 } else { run.tier.n(8000, 250_000) };
@@ -126,6 +136,8 @@ pub fn run(run: &mut Run) {
         } else {
             genm::decoder_matrix(rng, 6, 14)
         };
+        // one matrix in eight has bits that take part in no check
+        let m = if idx % 8 == 5 { genm::add_isolated_columns(&m, rng) } else { m };
         let len = if cfg!(miri) { 3 } else { rng.range(2, 20) };
         history(l, im, &m, rng, len);
     });
